@@ -49,7 +49,11 @@ CONSTANTS Nodes,        \* master nodes (naturals)
           AsyncRedirectDial, \* TRUE (broken variant): a redirection to a node without a connection is resent by its own goroutine
           TrackOrder,      \* TRUE: requests remember the nodes they were sent to (RedirectKeepsOrder)
           WithDemotion,    \* TRUE: the master replaced in a failover stays alive as a replica of its successor
-          ReadonlyEverywhere \* TRUE (the code): READONLY is sent on every backend connection, so a demoted master serves reads
+          ReadonlyEverywhere, \* TRUE (the code): READONLY is sent on every backend connection, so a demoted master serves reads
+          MaxMigs,         \* migrations of the run (one after the other)
+          StaleTableAtStart, \* TRUE: the table was loaded before the last changes of ownership - any node per slot
+          MaxFollowed      \* redirections the proxy follows for ONE request (0 = the code: no bound); with a bound the
+                           \* MOVED / ASK error of the next redirection becomes the client's reply (broken variants)
 
 Absent == 0            \* values are request ids (>= 1)
 OKReply == 1000
@@ -84,6 +88,7 @@ vars == <<owner, mig, store, table, needRefresh, q, asking, reqs, ref, migs, up,
 ASSUME AsyncRedirectDial => AtomicAsk
 
 ErrReply == 998
+RedirReply == 997      \* a MOVED / ASK error handed to the client
 
 R == 1..Len(reqs)
 
@@ -91,7 +96,9 @@ Init ==
   /\ owner \in [Slots -> Nodes]
   /\ mig = [s \in Slots |-> <<>>]
   /\ store = [n \in Nodes |-> [k \in Keys |-> Absent]]
-  /\ table = IF EmptyTableAtStart THEN [s \in Slots |-> NoNode] ELSE owner
+  /\ IF EmptyTableAtStart THEN table = [s \in Slots |-> NoNode]
+     ELSE IF StaleTableAtStart THEN table \in [Slots -> Nodes]
+     ELSE table = owner
   /\ needRefresh = EmptyTableAtStart
   /\ q = [n \in Nodes |-> <<>>]
   /\ asking = [n \in Nodes |-> FALSE]
@@ -138,6 +145,7 @@ DecideOp(n, k, af, op) ==
 Decide(n, k, af) == DecideOp(n, k, af, "write")
 
 (* node n processes the head of the proxy's connection *)
+GivesUp(rq) == MaxFollowed > 0 /\ rq.hops >= MaxFollowed   \* this redirection would be number hops + 1
 Path(rq, t) == IF TrackOrder THEN Append(rq.path, t) ELSE rq.path
 NodeExec(n) ==
   /\ up[n] /\ q[n] # <<>>
@@ -162,7 +170,14 @@ NodeExec(n) ==
                                 /\ UNCHANGED <<store, ref>>
                       /\ q' = [q EXCEPT ![n] = Tail(@)]
                       /\ UNCHANGED <<needRefresh, hasConn, parked>>
-                 [] d[1] \in {"moved", "ask"} /\ AsyncRedirectDial /\ ~hasConn[d[2]] ->
+                 [] d[1] \in {"moved", "ask"} /\ GivesUp(rq) ->
+                      \* broken variants: a bound on the redirections followed for one request - the redirection
+                      \* error itself is the client's reply, the command is not executed
+                      /\ reqs' = [reqs EXCEPT ![r].st = "done", ![r].reply = RedirReply, ![r].hops = @ + 1]
+                      /\ q' = [q EXCEPT ![n] = Tail(@)]
+                      /\ needRefresh' = TRUE
+                      /\ UNCHANGED <<store, ref, hasConn, parked>>
+                 [] d[1] \in {"moved", "ask"} /\ ~GivesUp(rq) /\ AsyncRedirectDial /\ ~hasConn[d[2]] ->
                       \* broken variant: no connection to the target yet - the resend (and the dial) is left to a
                       \* goroutine of its own, the reader of node n's connection goes on with the next reply
                       /\ parked' = parked \cup {[r |-> r, t |-> d[2], ask |-> (d[1] = "ask")]}
@@ -170,7 +185,7 @@ NodeExec(n) ==
                       /\ reqs' = [reqs EXCEPT ![r].hops = @ + 1, ![r].path = Path(rq, d[2])]
                       /\ needRefresh' = TRUE
                       /\ UNCHANGED <<store, ref, hasConn>>
-                 [] d[1] = "moved" /\ ~(AsyncRedirectDial /\ ~hasConn[d[2]]) ->
+                 [] d[1] = "moved" /\ ~GivesUp(rq) /\ ~(AsyncRedirectDial /\ ~hasConn[d[2]]) ->
                       \* handleRedirection: the reader of node n's connection resends to the named node itself
                       \* (it dials if there is no connection yet), then triggers a refresh
                       /\ q' = Enq([q EXCEPT ![n] = Tail(@)], d[2], [t |-> "cmd", r |-> r])
@@ -178,7 +193,7 @@ NodeExec(n) ==
                       /\ hasConn' = [hasConn EXCEPT ![d[2]] = TRUE]
                       /\ needRefresh' = TRUE
                       /\ UNCHANGED <<store, ref, parked>>
-                 [] d[1] = "ask" /\ ~(AsyncRedirectDial /\ ~hasConn[d[2]]) ->
+                 [] d[1] = "ask" /\ ~GivesUp(rq) /\ ~(AsyncRedirectDial /\ ~hasConn[d[2]]) ->
                       \* AtomicAsk: the backend writer emits ASKING and the command back to back;
                       \* pinned design: ASKING is enqueued now, the command by a second, separate send
                       /\ IF AtomicAsk
@@ -271,7 +286,8 @@ Tick ==
 
 (* operator: migrate slot s to node dst *)
 SetMigrating(s, dst) ==
-  /\ WithMigration /\ migs = 0 /\ migs' = 1
+  /\ WithMigration /\ migs < MaxMigs /\ migs' = migs + 1
+  /\ \A x \in Slots : mig[x] = <<>>
   /\ dst # owner[s]
   /\ mig' = [mig EXCEPT ![s] = <<owner[s], dst>>]
   /\ UNCHANGED <<owner, store, table, needRefresh, q, asking, reqs, ref, up, refreshes, failAt, aux>>
@@ -319,6 +335,12 @@ RedirectKeepsOrder ==
   TrackOrder => \A r1, r2 \in R :
     (r1 < r2 /\ reqs[r1].k = reqs[r2].k /\ reqs[r1].path[1] = reqs[r2].path[1] /\ reqs[r2].applied = 1)
       => (reqs[r1].applied = 1 \/ reqs[r1].reply = ErrReply)
+\* the client never sees a redirection
+NoRedirectError == \A r \in R : reqs[r].reply # RedirReply
+\* W_Chain2 / W_Chain3: one request is redirected twice / three times and is then executed (stale table + half-migrated
+\* slot: MOVED then ASK; two changes of ownership between refreshes: MOVED then MOVED; ...)
+NoChain2 == \A r \in R : ~(reqs[r].hops = 2 /\ reqs[r].applied = 1)
+NoChain3 == \A r \in R : ~(reqs[r].hops = 3 /\ reqs[r].applied = 1)
 \* window predicates (reachability is shown by a configuration that expects them to be violated)
 \* W_RouteDuringRefresh: a command can be routed while the refresher is between two table writes
 NoRouteDuringRefresh == ~(todo # {} /\ todo # Slots /\ Len(reqs) < MaxCmds)
